@@ -58,7 +58,7 @@ pub fn run(ctx: &Ctx) -> Report {
     let np = pr.len() as u64;
     // (a)
     let ndecl: u64 = if ctx.thorough { 8 } else { 6 };
-    let maxlen: u32 = if ctx.thorough { 5 } else { 4 };
+    let maxlen: u32 = if ctx.thorough { 6 } else { 4 };
     let nseq = seq_count(ndecl, maxlen);
     let total = nseq * (maxlen as u64 + 1) * np;
     rep.absorb(par_run(total, |i, l| {
@@ -171,7 +171,7 @@ pub fn run(ctx: &Ctx) -> Report {
 
     // (c) moving an address-free constant (differential, real vs real)
     let ndecl_c: u64 = 6;
-    let maxlen_c: u32 = if ctx.thorough { 4 } else { 3 };
+    let maxlen_c: u32 = if ctx.thorough { 5 } else { 3 };
     let nseq_c = seq_count(ndecl_c, maxlen_c);
     rep.absorb(par_run(nseq_c * np, |i, l| {
         let d = decode(i, &[np, nseq_c]);
